@@ -146,6 +146,8 @@ class ModelMixin:
         v = args[0]
         if isinstance(v, ExcV):
             return [ok(self.exc_str(v, st), st)]
+        if isinstance(v, Opt):
+            v = self.unwrap_opt(v, st, 'str', line)
         p = self.fmt_value(v, st, line)
         return [ok(self.mk_fstr([p]) if not isinstance(p, Opaque) else p, st)]
 
@@ -159,6 +161,12 @@ class ModelMixin:
         return Opaque(fresh_name('excstr'), kind='str')
 
     def bi_repr(self, args, kwargs, st, line):
+        v = args[0]
+        if isinstance(v, Opt):
+            v = v.val
+        if isinstance(v, Opaque):
+            f = z3.Function('repr_of', U, U)
+            return [ok(Opaque(f(v.term), kind='str', label=f'repr({v.label})'), st)]
         return [ok(Opaque(fresh_name('repr'), kind='str'), st)]
 
     def bi_isinstance(self, args, kwargs, st, line):
@@ -877,6 +885,18 @@ class ModelMixin:
         return [ok(None, st)]
 
     # ------------------------------------------------------------------ contracts at call sites
+    def describe(self, v):
+        if isinstance(v, Opaque):
+            return f'{v.kind} value'
+        if is_bool_like(v):
+            return 'bool'
+        if is_int_like(v):
+            return 'int'
+        return type(v).__name__
+
+    def describe_type(self, t):
+        return getattr(t, 'kind', None) or getattr(t, 'name', None) or type(t).__name__
+
     def coerce_arg(self, v, t, st, what, line):
         from .contracts import OptT, Int, Real, Bool
         if isinstance(t, OptT):
@@ -889,12 +909,34 @@ class ModelMixin:
             return self.unwrap_opt(v, st, what, line)
         return v
 
+    def type_ok(self, v, t):
+        """Static type agreement of an argument with a declared parameter type (typed contracts)."""
+        from .contracts import OptT, Int, Real, Bool, ExtT, Str
+        if isinstance(t, OptT):
+            return v is None or isinstance(v, Opt) or self.type_ok(v, t.inner)
+        if isinstance(v, Opt):
+            v = v.val
+        if t is Bool:
+            return is_bool_like(v)
+        if t is Int:
+            return is_int_like(v)
+        if t is Str or (isinstance(t, ExtT) and t.kind == 'str'):
+            return isinstance(v, (str, FStr)) or (is_sym(v) and z3.is_string(v)) or (isinstance(v, Opaque) and v.kind == 'str')
+        if isinstance(t, ExtT) and t.kind == 'excclass':
+            return (isinstance(v, Opaque) and v.kind == 'excclass') or isinstance(v, ExtClassRef) or \
+                (isinstance(v, ClassRef) and any(isinstance(self.external_name(b), ExtClassRef) for b in self.repo.external_bases(v.cinfo) if isinstance(b, str)))
+        return True
+
     def apply_contract(self, c, finfo, self_val, args, kwargs, st, line):
         env = self.bind_params(finfo.node, self_val if not isinstance(self_val, ClassRef) else None, args, kwargs, st, finfo)
         self.resolve_defaults(env, st, finfo.module)
         self.used_contracts.add(c.target)
         for pn, pt in c.params.items():
             if pn in env:
+                if c.typed and not self.type_ok(env[pn], pt):
+                    self.oblige(st, f'pre.{finfo.qualname.split(":")[1]}.type_of_{pn}@{line}', False, kind='pre', line=line,
+                                note=f'argument {pn} receives a {self.describe(env[pn])} where the callee needs {self.describe_type(pt)}',
+                                props=c.typed if isinstance(c.typed, (list, tuple)) else None)
                 env[pn] = self.coerce_arg(env[pn], pt, st, f'{finfo.name}.{pn}', line)
         pre = st.fork()
         ctx = CallCtx(self, finfo, env, self_val, pre)
@@ -941,6 +983,9 @@ class ModelMixin:
             # (postconditions of monitor methods speak about the state at lock acquisition, which a
             # caller cannot know: nothing is assumed from them at call sites)
             for nm, f in c.ensures(ctxn).items():
-                st.assume(f[0] if isinstance(f, tuple) else f)
+                f = f[0] if isinstance(f, tuple) else f
+                if f is False or (is_sym(f) and z3.is_false(z3.simplify(f))):
+                    raise EngineError(f'ensures clause {nm} of {c.target} is literally false at the call site in line {line}')
+                st.assume(f)
         out.append(ok(result, st))
         return out
